@@ -43,7 +43,6 @@ var (
 	statProps = map[string]*propStats{}
 )
 
-
 func statFor(prop string) *propStats {
 	p := statProps[prop]
 	if p == nil {
